@@ -271,6 +271,14 @@ def run(ctx):
             if depth:
                 ctx.count('depth', 'depth=%d' % depth)
             ctx.seen('nontrivial', text)
+        # white space other than space / tab / line feed in every structural position (the block parser mixes \s, str.strip()
+        # and explicit ' \t' sets: a character that one test takes for white space and the next one does not)
+        k = 0
+        for c in ODD_WS:
+            for shape in ODD_WS_SHAPES:
+                k += 1
+                if k % ctx.nshards == ctx.shard:
+                    run_input(ctx, shape.replace('{c}', c), 'odd-white-space', tmpdir=tmpdir, nvariants=1)
         # S5 exhaustive small strings
         idx = 0
         for alpha, maxlen, tag in ((ALPHA1, sz['enum_len'], 'enum1'), (ALPHA2, sz['enum2_len'], 'enum2')):
@@ -329,6 +337,13 @@ def run(ctx):
             os.remove(os.path.join(tmpdir, fn))
         os.rmdir(tmpdir)
     return {'slowest': getattr(ctx, 'slow', [])}
+
+
+ODD_WS = ['\xa0', '\u3000', '\u2003', '\u1680', '\u202f', '\u2028', '\x85', '\x0b', '\x0c', '\x1c', '\x1f', '\r']
+ODD_WS_SHAPES = ['- item\n{c}continued\n', '- item\n {c}x\n', '- a\n\n{c}\n', '- a\n  {c}\n  b\n', '1. a\n   {c}b\n', '> - a\n> {c}b\n', '> {c}\n', '>{c}a\n> b\n', '{c}- a\n',
+                 '-{c}a\n', '1.{c}a\n', '#{c}h\n', '# h{c}\n', '{c}# h\n', 'a\n{c}\nb\n', 'a{c}\n===\n', 'a\n==={c}\n', 'a\n{c}===\n', '```{c}\nx\n```\n', '```\n{c}\n```{c}\n',
+                 '    code\n{c}\n    more\n', '{c}    code\n', '[a]:{c}/u\n\n[a]\n', '[a]: /u{c}"t"\n\n[a]\n', '[a{c}b]: /u\n\n[a b]\n', '| a |{c}\n|---|\n| b{c}|\n', '|{c}a |\n|{c}---|\n',
+                 '<div>\n{c}\nx\n', '{c}<div>\n', '***{c}\n', '* *{c}*\n', 'a{c}{c}\nb\n', 'a \\{c}\nb\n', '`{c}a{c}`\n', '*{c}a*{c}\n', '[t]({c}/u{c})\n', '<http://x{c}y>\n', '{c}\n', '{c}']
 
 
 # witnesses of repaired defects (see known_findings.json "fixed" entries) and other fixed regression inputs
